@@ -404,6 +404,35 @@ func extract(repo string, it Item) (sourceTxt, lean string, err error) {
 			}
 		}
 		return "", "", fmt.Errorf("call with prefix %s #%d not found", parts[1], n)
+	case "appendchars":
+		// appendchars:N — the character literals appended by the N-th `append(dst, 'a', 'b', …)` call, as a string
+		n, err := idx(1)
+		if err != nil {
+			return "", "", err
+		}
+		k := 0
+		for _, c := range calls {
+			if norm(src(c.Fun)) != "append" {
+				continue
+			}
+			if k == n {
+				var sb strings.Builder
+				for _, a := range c.Args[1:] {
+					bl, ok := a.(*ast.BasicLit)
+					if !ok || bl.Kind != token.CHAR {
+						return norm(src(c)), "", fmt.Errorf("append argument %s is not a character literal", norm(src(a)))
+					}
+					r, _, _, err := strconv.UnquoteChar(bl.Value[1:len(bl.Value)-1], '\'')
+					if err != nil {
+						return "", "", err
+					}
+					sb.WriteRune(r)
+				}
+				return norm(src(c)), leanString(sb.String()), nil
+			}
+			k++
+		}
+		return "", "", fmt.Errorf("append call #%d not found", n)
 	case "iftext":
 		// whole if statement (init; cond {body}) as a normalised source string
 		n, err := idx(1)
